@@ -395,3 +395,6 @@ func (c *Chain) Export() (*types.GenesisState, error) {
 func (c *Chain) LedgerStore() storetypes.KVStore {
 	return c.App.CommitMultiStore().GetKVStore(c.LedgKey)
 }
+
+// DecodeTx decodes raw transaction bytes with the process-wide encoding.
+func DecodeTx(bz []byte) (sdk.Tx, error) { SetupSDK(); return encOnce().txCfg.TxDecoder()(bz) }
